@@ -135,7 +135,7 @@ func startWorker() *proc {
 	cmd := exec.Command(os.Args[0], "worker")
 	stdin, _ := cmd.StdinPipe()
 	stdout, _ := cmd.StdoutPipe()
-	cmd.Stderr = os.Stderr
+	cmd.Stderr = nil
 	if err := cmd.Start(); err != nil {
 		fmt.Fprintln(os.Stderr, "cannot start worker:", err)
 		os.Exit(2)
